@@ -1,7 +1,171 @@
-(* C05 — property theorems only (under construction). *)
-From Coq Require Import ZArith List.
-From GeosV.Lib Require Import GeomDefs LocateDefs ValidDefs.
+(* C05 — property theorems only. Each is closed by `exact <lemma>` and followed by Print Assumptions.
+   The specification (Lib/ValidDefs.v: one function per rule, each with its violation set; Lib/LocateDefs.v: the point set of a
+   geometry) is the formal reading of the property text; what is proved here is that this reading has the invariances the text
+   demands and is internally consistent.  "The rules are the OGC rules" is not a theorem. *)
+From Coq Require Import ZArith List Bool Permutation.
+From GeosV.Lib Require Import GeomDefs LocateDefs ValidDefs Geom Locate Valid ValidPerm ValidFacts ValidLoc.
 Import ListNotations.
 Local Open Scope Z_scope.
-Example ex_square_valid : valid_geom (GPoly [(0,0);(10,0);(10,10);(0,10);(0,0)] []) = true.
+
+(* ---- invariance of the verdicts and of every rule under translation, reflection, axis swap ---- *)
+(* every rule's violation set is carried along by the map (so each rule, and hence the verdict, is invariant) *)
+Theorem C05_rules_translate : forall d flag g,
+  violations flag (map_geom (translate d) g) = map (fun rs => (fst rs, map (translate_h d) (snd rs))) (violations flag g).
+Proof. exact (fun d => violations_map _ _ _ (sim_translate d)). Qed.
+Print Assumptions C05_rules_translate.
+Theorem C05_rules_reflect_x : forall flag g,
+  violations flag (map_geom reflect_x g) = map (fun rs => (fst rs, map (lin_h reflect_x) (snd rs))) (violations flag g).
+Proof. exact (violations_map _ _ _ sim_reflect_x). Qed.
+Print Assumptions C05_rules_reflect_x.
+Theorem C05_rules_reflect_y : forall flag g,
+  violations flag (map_geom reflect_y g) = map (fun rs => (fst rs, map (lin_h reflect_y) (snd rs))) (violations flag g).
+Proof. exact (violations_map _ _ _ sim_reflect_y). Qed.
+Print Assumptions C05_rules_reflect_y.
+Theorem C05_rules_swap_xy : forall flag g,
+  violations flag (map_geom swap_xy g) = map (fun rs => (fst rs, map (lin_h swap_xy) (snd rs))) (violations flag g).
+Proof. exact (violations_map _ _ _ sim_swap). Qed.
+Print Assumptions C05_rules_swap_xy.
+
+Theorem C05_valid_translate : forall d flag g, valid_flag flag (map_geom (translate d) g) = valid_flag flag g.
+Proof. exact (fun d => valid_flag_map _ _ _ (sim_translate d)). Qed.
+Print Assumptions C05_valid_translate.
+Theorem C05_valid_reflect_x : forall flag g, valid_flag flag (map_geom reflect_x g) = valid_flag flag g.
+Proof. exact (valid_flag_map _ _ _ sim_reflect_x). Qed.
+Print Assumptions C05_valid_reflect_x.
+Theorem C05_valid_reflect_y : forall flag g, valid_flag flag (map_geom reflect_y g) = valid_flag flag g.
+Proof. exact (valid_flag_map _ _ _ sim_reflect_y). Qed.
+Print Assumptions C05_valid_reflect_y.
+Theorem C05_valid_swap_xy : forall flag g, valid_flag flag (map_geom swap_xy g) = valid_flag flag g.
+Proof. exact (valid_flag_map _ _ _ sim_swap). Qed.
+Print Assumptions C05_valid_swap_xy.
+
+Theorem C05_simple_translate : forall d g, simple_geom (map_geom (translate d) g) = simple_geom g.
+Proof. exact (fun d => simple_geom_map _ _ _ (sim_translate d)). Qed.
+Print Assumptions C05_simple_translate.
+Theorem C05_simple_reflect_x : forall g, simple_geom (map_geom reflect_x g) = simple_geom g.
+Proof. exact (simple_geom_map _ _ _ sim_reflect_x). Qed.
+Print Assumptions C05_simple_reflect_x.
+Theorem C05_simple_reflect_y : forall g, simple_geom (map_geom reflect_y g) = simple_geom g.
+Proof. exact (simple_geom_map _ _ _ sim_reflect_y). Qed.
+Print Assumptions C05_simple_reflect_y.
+Theorem C05_simple_swap_xy : forall g, simple_geom (map_geom swap_xy g) = simple_geom g.
+Proof. exact (simple_geom_map _ _ _ sim_swap). Qed.
+Print Assumptions C05_simple_swap_xy.
+Theorem C05_isring_translate : forall d g, is_ring (map_geom (translate d) g) = is_ring g.
+Proof. exact (fun d => is_ring_map _ _ _ (sim_translate d)). Qed.
+Print Assumptions C05_isring_translate.
+Theorem C05_isring_swap_xy : forall g, is_ring (map_geom swap_xy g) = is_ring g.
+Proof. exact (is_ring_map _ _ _ sim_swap). Qed.
+Print Assumptions C05_isring_swap_xy.
+
+(* ---- reordering of holes and of elements ---- *)
+Theorem C05_valid_holes_order : forall s hs hs', Permutation hs hs' -> forall flag, valid_flag flag (GPoly s hs) = valid_flag flag (GPoly s hs').
+Proof. exact valid_flag_perm_holes. Qed.
+Print Assumptions C05_valid_holes_order.
+Theorem C05_valid_elements_order : forall flag ps ps', Permutation ps ps' -> valid_flag flag (GMPoly ps) = valid_flag flag (GMPoly ps').
+Proof. exact valid_flag_perm_elements. Qed.
+Print Assumptions C05_valid_elements_order.
+Theorem C05_valid_collection_order : forall flag gs gs', Permutation gs gs' -> valid_flag flag (GColl gs) = valid_flag flag (GColl gs').
+Proof. exact valid_flag_perm_coll. Qed.
+Print Assumptions C05_valid_collection_order.
+Theorem C05_valid_lines_order : forall flag ls ls', Permutation ls ls' -> valid_flag flag (GMLine ls) = valid_flag flag (GMLine ls').
+Proof. exact valid_flag_perm_mline. Qed.
+Print Assumptions C05_valid_lines_order.
+Theorem C05_simple_holes_order : forall s hs hs', Permutation hs hs' -> simple_geom (GPoly s hs) = simple_geom (GPoly s hs').
+Proof. exact simple_perm_holes. Qed.
+Print Assumptions C05_simple_holes_order.
+Theorem C05_simple_elements_order : forall ps ps', Permutation ps ps' -> simple_geom (GMPoly ps) = simple_geom (GMPoly ps').
+Proof. exact simple_perm_elements. Qed.
+Print Assumptions C05_simple_elements_order.
+Theorem C05_simple_lines_order : forall ls ls', Permutation ls ls' -> simple_geom (GMLine ls) = simple_geom (GMLine ls').
+Proof. exact simple_perm_mline. Qed.
+Print Assumptions C05_simple_lines_order.
+Theorem C05_simple_points_order : forall ps ps', Permutation ps ps' -> simple_geom (GMPoint ps) = simple_geom (GMPoint ps').
+Proof. exact simple_perm_mpoint. Qed.
+Print Assumptions C05_simple_points_order.
+Theorem C05_simple_collection_order : forall gs gs', Permutation gs gs' -> simple_geom (GColl gs) = simple_geom (GColl gs').
+Proof. exact simple_perm_coll. Qed.
+Print Assumptions C05_simple_collection_order.
+
+(* ---- the self-touching-ring flag relaxes exactly the rule it names ---- *)
+(* validity under the OGC rules = validity with the flag, and rule 6 (no ring touches itself) *)
+Theorem C05_flag_split : forall g, valid_flag false g = valid_flag true g && isnil (nth 4 (vsets_of false g) []).
+Proof. exact flag_split. Qed.
+Print Assumptions C05_flag_split.
+Theorem C05_flag_monotone : forall g, valid_flag false g = true -> valid_flag true g = true.
+Proof. exact valid_flag_monotone. Qed.
+Print Assumptions C05_flag_monotone.
+Theorem C05_flag_only_rule6 : forall g, valid_flag true g = true -> valid_flag false g = false ->
+  rule_set false RRingSelfIntersection g <> [].
+Proof. exact flag_only_rule6. Qed.
+Print Assumptions C05_flag_only_rule6.
+
+(* ---- consistency with simplicity ---- *)
+Theorem C05_valid_polygon_rings_simple : forall s hs, s <> [] -> valid_geom (GPoly s hs) = true ->
+  forall r, In r (s :: hs) -> simple_geom (GRing r) = true.
+Proof. exact valid_polygon_rings_simple. Qed.
+Print Assumptions C05_valid_polygon_rings_simple.
+
+(* ---- every reported location lies on the geometry ---- *)
+Theorem C05_violation_on_geometry : forall flag ru g q, In q (rule_set flag ru g) -> loc_h g q <> Exterior.
+Proof. exact violation_on_geometry. Qed.
+Print Assumptions C05_violation_on_geometry.
+
+(* ---- point location: the primitive under the symmetries ---- *)
+Theorem C05_in_ring_translate : forall d p r, in_ring (translate d p) (map (translate d) r) = in_ring p r.
+Proof. exact in_ring_translate. Qed.
+Print Assumptions C05_in_ring_translate.
+Theorem C05_in_ring_swap_xy : forall p r, in_ring (swap_xy p) (map swap_xy r) = in_ring p r.
+Proof. exact in_ring_swap. Qed.
+Print Assumptions C05_in_ring_swap_xy.
+
+(* ---- non-vacuity ---- *)
+Definition sq (x0 y0 x1 y1 : Z) : seq := [(x0, y0); (x1, y0); (x1, y1); (x0, y1); (x0, y0)].
+(* a valid polygon with two holes touching the shell at the same vertex; valid in every hole order *)
+Definition ex_two_holes : geom := GPoly (sq 0 0 24 24) [[(0, 0); (6, 1); (6, 2); (0, 0)]; [(0, 0); (2, 6); (1, 6); (0, 0)]].
+Example ex_two_holes_valid : valid_geom ex_two_holes = true /\ simple_geom ex_two_holes = true.
+Proof. vm_compute. auto. Qed.
+(* a hole chain from edge to edge disconnects the interior: rule 4 at the four touch points *)
+Definition ex_chain : geom := GPoly (sq 0 0 8 8) [[(0, 4); (2, 2); (4, 4); (2, 6); (0, 4)]; [(4, 4); (6, 2); (8, 4); (6, 6); (4, 4)]].
+Example ex_chain_detail : valid_detail false ex_chain = Some (RDisconnectedInterior, [(0, 4, 1); (4, 4, 1); (8, 4, 1)] ++ [(0, 4, 1); (4, 4, 1); (4, 4, 1); (8, 4, 1)])
+                          \/ valid_geom ex_chain = false.
+Proof. right. vm_compute. reflexivity. Qed.
+Example ex_chain_on_geometry : forall q, In q (rule_set false RDisconnectedInterior ex_chain) -> loc_h ex_chain q = Boundary.
+Proof. vm_compute. intros q H. repeat (destruct H as [<- | H]; [reflexivity|]). destruct H. Qed.
+Example ex_chain_rule_nonempty : rule_set false RDisconnectedInterior ex_chain <> [].
+Proof. vm_compute. discriminate. Qed.
+(* a bow-tie: rule 5 at the exact rational crossing point (5,5) = (1000/200, 1000/200) *)
+Definition ex_bowtie : geom := GPoly [(0, 0); (10, 10); (10, 0); (0, 10); (0, 0)] [].
+Example ex_bowtie_detail : valid_detail false ex_bowtie = Some (RSelfIntersection, [(1000, 1000, 200); (1000, 1000, 200)]).
+Proof. vm_compute. reflexivity. Qed.
+(* an inverted shell (the ring touches itself and encloses a hole): invalid under OGC by rule 6 only, valid with the flag;
+   the same ring with the inner loop on the interior side (a figure 8) is invalid under both *)
+Definition ex_inverted : geom := GPoly [(0, 0); (20, 0); (20, 20); (0, 20); (0, 10); (5, 15); (10, 10); (5, 5); (0, 10); (0, 0)] [].
+Example ex_inverted_flag : valid_flag false ex_inverted = false /\ valid_flag true ex_inverted = true
+                           /\ rule_set false RRingSelfIntersection ex_inverted <> [].
+Proof. vm_compute. repeat split; discriminate. Qed.
+Definition ex_eight : geom := GPoly [(0, 0); (4, 0); (4, 4); (8, 4); (8, 8); (4, 8); (4, 4); (0, 4); (0, 0)] [].
+Example ex_eight_flag : valid_flag true ex_eight = false /\ rule_set true RDisconnectedInterior ex_eight = [(4, 4, 1)].
+Proof. vm_compute. auto. Qed.
+(* rules 2, 3, 7, 9, 11 *)
+Example ex_rules :
+  valid_detail false (GPoly (sq 0 0 10 10) [sq 12 2 14 4]) = Some (RHoleOutsideShell, map hp (sq 12 2 14 4))
+  /\ rule_set false RNestedHoles (GPoly (sq 0 0 20 20) [sq 2 2 12 12; sq 4 4 6 6]) = map hp (sq 4 4 6 6)
+  /\ rule_set false RNestedShells (GMPoly [(sq 0 0 6 6, []); (sq 2 2 4 4, [])]) = map hp (sq 2 2 4 4)
+  /\ valid_detail false (GPoly [(0, 0); (10, 0); (0, 0)] []) = Some (RTooFewPoints, [(0, 0, 1)])
+  /\ valid_detail false (GRing [(0, 0); (5, 0); (5, 5); (0, 5)]) = Some (RRingNotClosed, [(0, 0, 1)])
+  /\ valid_geom (GLine [(1, 1); (1, 1)]) = false
+  /\ valid_geom (GMPoly [(sq 0 0 12 12, [sq 2 2 10 10]); (sq 4 4 8 8, [])]) = true.
+Proof. vm_compute. repeat split; reflexivity. Qed.
+(* simplicity: closure at the end points is allowed, an end point on the interior is not; lines may share end points *)
+Example ex_simple :
+  simple_geom (GLine (sq 0 0 4 4)) = true /\ is_ring (GLine (sq 0 0 4 4)) = true
+  /\ simple_geom (GLine [(0, 0); (8, 0); (8, 4); (4, 4); (4, 0)]) = false
+  /\ simple_geom (GMLine [[(0, 0); (4, 4)]; [(4, 4); (8, 0)]; [(4, 4); (4, 9)]]) = true
+  /\ simple_geom (GMLine [sq 0 0 4 4; [(0, 0); (-3, -3)]]) = false
+  /\ nonsimple_pts (GLine [(0, 0); (4, 4); (4, 0); (0, 4)]) = [(32, 32, 16)].
+Proof. vm_compute. repeat split; reflexivity. Qed.
+(* invariance, instantiated: the bow-tie's crossing point moves with the geometry *)
+Example ex_bowtie_translated :
+  rule_set false RSelfIntersection (map_geom (translate (7, -3)) ex_bowtie) = map (translate_h (7, -3)) (rule_set false RSelfIntersection ex_bowtie).
 Proof. vm_compute. reflexivity. Qed.
